@@ -4,6 +4,7 @@ import (
 	"encoding/json"
 	"errors"
 	"fmt"
+	"math"
 
 	"verifharness/fw"
 	"verifharness/grid"
@@ -168,6 +169,17 @@ func genOutsideCase(rng *fw.Rng) (*SnapCase, string) {
 	if nOut > 0 {
 		kind = "outside:" + where[0]
 	}
+	// sometimes an astronomically far vertex: beyond what the 1e-10 integer representation can hold
+	if nOut > 0 && rng.Chance(1, 40) {
+		v := fw.Pick(rng, []float64{9.3e8, 1e9, 1e10, 1.8446744073709552e9, 1e15, 1e30, 1e300, math.MaxFloat64})
+		if rng.Bool() {
+			v = -v
+		}
+		ri, vi := rng.Intn(len(poly)), 0
+		vi = rng.Intn(len(poly[ri]))
+		poly[ri][vi][rng.Intn(2)] = v
+		kind = "outside:astronomical"
+	}
 	return &SnapCase{TMS: sc.Spec, IDs: ids, Keep: rng.Bool(), Reverse: rng.Chance(1, 4), Poly: poly, Kind: kind}, ""
 }
 
@@ -193,10 +205,15 @@ func judgeC09(c *fw.Ctx, sc *SnapCase) {
 	for _, r := range sc.Poly {
 		for _, p := range r {
 			ip := grid.FromFloatPoint(p)
-			if !gs.InsideExtent(ip) {
+			// beyond +-9e8 CRS units the 1e-10 integer representation overflows: such a vertex is outside every extent
+			huge := math.Abs(p[0]) > 9e8 || math.Abs(p[1]) > 9e8
+			if huge || !gs.InsideExtent(ip) {
 				nOut++
 				outs = append(outs, ov{p, ip})
 				d := max(gs.OX-ip[0], ip[0]-gs.MaxX+1, gs.OY-ip[1], ip[1]-gs.MaxY+1)
+				if huge {
+					d = int64(1) << 61
+				}
 				minDist = min(minDist, d)
 			}
 		}
